@@ -330,6 +330,46 @@ namespace Bct.Synth
 open List
 variable {n : ℕ}
 
+/-- totality: for feasible k there is a number m of permutation values such that the routine returns for every draw
+list that starts with a permutation of `0 … m-1` (m = 0 when nothing has to be removed), consuming exactly those -/
+theorem ringLattice_total (k : Nat) (hk : (k : Int) ≤ nearCnt n (n / 2)) :
+    ∃ m, ∀ ds : List Nat, m ≤ ds.length → isPermOfRange (ds.take m) m = true →
+      ∃ C, ringLattice n k ds = .ok (C, ds.drop m) := by
+  obtain ⟨st, hfill, inv, hkk⟩ := ringFill_spec k hk n _ (fillInv_init k) (by simp)
+  by_cases hob : (st.kk - (k : Int)).toNat = 0
+  · refine ⟨0, fun ds _ _ => ⟨st.CIJ, ?_⟩⟩
+    unfold ringLattice
+    rw [hfill]
+    simp only
+    rw [if_pos hob]; simp
+  · refine ⟨(nonzeroCells st.dCIJ).length, fun ds hlen hperm => ?_⟩
+    obtain ⟨hpl, hplt, hpnd⟩ := isPermOfRange_spec hperm
+    have hc1 : 1 ≤ st.count := by
+      by_contra h0
+      have h0' : st.count = 0 := by omega
+      have := inv.kk; rw [h0', nearCnt_zero] at this
+      omega
+    have hneeded : (nearCnt n (st.count - 1) : Int) < k := by
+      rcases inv.needed with h0 | h0
+      · omega
+      · exact h0
+    have hcells : nonzeroCells st.dCIJ = (allCells n).filter (onBand n st.count) := by
+      rw [nonzeroCells_eq]; apply List.filter_congr; intro p _
+      rw [inv.dcij hc1 p]; cases onBand n st.count p <;> simp
+    have hm : (nonzeroCells st.dCIJ).length = (allCells n).countP (onBand n st.count) := by
+      rw [hcells, List.countP_eq_length_filter]
+    have hsucc := nearCnt_succ (n := n) (st.count - 1)
+    rw [Nat.sub_add_cancel hc1] at hsucc
+    have hob_le : (st.kk - (k : Int)).toNat ≤ (ds.take (nonzeroCells st.dCIJ).length).length := by
+      rw [hpl, hm]; have := inv.kk; omega
+    obtain ⟨C', hC', _⟩ := removeExcess_spec (nonzeroCells st.dCIJ) (ds.take (nonzeroCells st.dCIJ).length)
+      (fun r hr => hplt r hr) (st.kk - (k : Int)).toNat 0 st.CIJ (by omega)
+    refine ⟨C', ?_⟩
+    unfold ringLattice
+    rw [hfill]
+    simp only
+    rw [if_neg hob, if_neg (by omega), if_neg (by simp [hperm]), hC']
+
 /-! ### the bands `1 … n/2` are all off-diagonal cells -/
 
 theorem nearCnt_full : nearCnt n (n / 2) = n * (n - 1) := by
